@@ -892,6 +892,14 @@ func genSeqLock(g *core.Gen, r *core.Rand) {
 		}
 		g.Case(class, act && ver >= 2 && !cb, fmt.Sprintf("C13 seqlock %s %d %s %s %s", b01(act), ver, b01(cb), strings.Join(ts, ","), strings.Join(ins, ",")))
 	}
+	for _, lt := range []uint32{0, 1, 511, 512, 513, 1023, 1024, 65535, 65536, 1<<25 - 1, 1 << 25, 1<<25 + 511, 1<<31 - 1, 1 << 31, 1<<32 - 1} {
+		for _, secs := range []bool{false, true} {
+			g.Case("lt2seq", lt > 0, fmt.Sprintf("C13 lt2seq %s %d", b01(secs), lt))
+		}
+	}
+	for i := 0; i < g.N(100, 1000); i++ {
+		g.Case("lt2seq", true, fmt.Sprintf("C13 lt2seq %s %d", b01(r.Bool()), r.U32()>>uint(r.Intn(24))))
+	}
 	// evaluation at every boundary
 	for _, s := range []int64{-1, 0, 1499999999, 1500000000, 1500000001} {
 		for _, h := range []int64{-1, 0, 99, 100, 101, 2147483647} {
